@@ -318,6 +318,50 @@ fn extract_patterns(iso_ts: &str) -> Vec<String> {
     out
 }
 
+/// the members of `type WhitespaceCharacter = ' ' | '\t' | …;` of an iso.ts, as the strings the TypeScript
+/// literals denote; `None` when the declaration is not of that shape
+fn extract_whitespace(iso_ts: &str) -> Option<Vec<String>> {
+    let needle = "type WhitespaceCharacter = ";
+    let i = iso_ts.find(needle)? + needle.len();
+    let rest = &iso_ts[i..];
+    let j = rest.find(";\n")?;
+    let mut out = vec![];
+    for part in rest[..j].split('|') {
+        let t = part.trim();
+        let inner = t.strip_prefix('\'')?.strip_suffix('\'')?;
+        let cs: Vec<char> = inner.chars().collect();
+        let mut v = String::new();
+        let mut k = 0;
+        while k < cs.len() {
+            if cs[k] == '\\' {
+                k += 1;
+                match cs.get(k)? {
+                    't' => v.push('\t'),
+                    'n' => v.push('\n'),
+                    'r' => v.push('\r'),
+                    'f' => v.push('\u{c}'),
+                    'v' => v.push('\u{b}'),
+                    '0' => v.push('\0'),
+                    '\\' => v.push('\\'),
+                    '\'' => v.push('\''),
+                    'u' => {
+                        let hex: String = cs.get(k + 1..k + 5)?.iter().collect();
+                        v.push(char::from_u32(u32::from_str_radix(&hex, 16).ok()?)?);
+                        k += 4;
+                    }
+                    _ => return None,
+                }
+                k += 1;
+            } else {
+                v.push(cs[k]);
+                k += 1;
+            }
+        }
+        out.push(v);
+    }
+    Some(out)
+}
+
 fn header_rewrite(files: &Files, p: &Project, variant: &str) -> Files {
     let mut out = files.clone();
     for (_, d) in &p.decls {
@@ -326,6 +370,13 @@ fn header_rewrite(files: &Files, p: &Project, variant: &str) -> Files {
             "twospace" => format!("{}  {}.{}", d.keyword(), d.parent(), d.name()),
             "dotspace" => format!("{} {} . {}", d.keyword(), d.parent(), d.name()),
             "tabsep" => format!("{}\t{}.{}", d.keyword(), d.parent(), d.name()),
+            // white space the iso lexer skips (`[ \t\r\n\f\u{feff}]+`), directly before the keyword
+            "ws-tab" => format!("\t{canon}"),
+            "ws-tabs" => format!("\t\t{canon}"),
+            "ws-cr" => format!("\r{canon}"),
+            "ws-crlf" => format!("\r\n\t{canon}"),
+            "ws-ff" => format!("\u{c}{canon}"),
+            "ws-bom" => format!("\u{feff}{canon}"),
             _ => canon.clone(),
         };
         for (path, bytes) in out.iter_mut() {
@@ -347,6 +398,7 @@ fn run_overloads(f: &[&str]) -> String {
     let (variant, wire) = match f {
         ["ovl", w] => ("canonical", *w),
         ["ovlnc", v, w] => (*v, *w),
+        ["ovlws", v, w] => (*v, *w),
         _ => return "bad-request".into(),
     };
     let Some(p) = from_wire(wire) else { return "bad-wire".into() };
@@ -356,8 +408,10 @@ fn run_overloads(f: &[&str]) -> String {
     match &out.result {
         CompileResult::Ok(_) => {
             let Some(iso) = out.artifacts.get("iso.ts") else { return "no-iso-ts".into() };
-            let pats = extract_patterns(&String::from_utf8_lossy(iso));
-            format!("ok\t{}", hexlist(pats.iter().map(|s| s.as_str())))
+            let iso = String::from_utf8_lossy(iso);
+            let pats = extract_patterns(&iso);
+            let Some(ws) = extract_whitespace(&iso) else { return "no-whitespace-type".into() };
+            format!("ok\t{}\t{}", hexlist(ws.iter().map(|s| s.as_str())), hexlist(pats.iter().map(|s| s.as_str())))
         }
         CompileResult::Diagnostics(ds) => format!("rejected\t{}", hexs(&ds[0].message)),
         CompileResult::Panic(m) => format!("panic\t{}", panic_sig(m)),
@@ -373,6 +427,10 @@ fn gen_overloads(r: &mut Rng, i: u64) -> Vec<String> {
     if i % 10 == 9 {
         let v = *r.pick(&["twospace", "dotspace", "tabsep"]);
         vec![format!("ovlnc\t{v}\t{}", to_wire(&p))]
+    } else if i % 10 >= 7 {
+        // the literals re-rendered with other leading white space the real lexer skips
+        let v = *r.pick(&["ws-tab", "ws-tab", "ws-tabs", "ws-cr", "ws-crlf", "ws-ff", "ws-bom"]);
+        vec![format!("ovlws\t{v}\t{}", to_wire(&p))]
     } else {
         vec![format!("ovl\t{}", to_wire(&p))]
     }
@@ -1191,7 +1249,7 @@ fn main() {
     };
     let mut run = move |f: &[&str]| -> String {
         let r = std::panic::catch_unwind(std::panic::AssertUnwindSafe(|| match f.first().copied().unwrap_or("") {
-            "ovl" | "ovlnc" => run_overloads(f),
+            "ovl" | "ovlnc" | "ovlws" => run_overloads(f),
             "hole" => run_holes(f),
             "artsp" | "artsi" | "artsdemop" | "artsdemoi" => run_arts(f),
             "det" | "detdiag" | "detdup" | "detep" => run_det(f),
